@@ -75,6 +75,8 @@ def is_open_token(t: G) -> bool:
     """A token class that accepts arbitrary user text (identifier, string, number, free text)."""
     if t.kind == 'regex' and comment_forms(t) is not None:
         return False            # a comment token written as a regular expression starts with its marker
+    if t.kind == 'regex' and regex_skipper(t.a.get('pattern', ''), t.a.get('flags', 0) or 0) is not None:
+        return False            # a skipper written as a regular expression matches blanks, line breaks and comments only
     return t.kind in ('word', 'quoted', 'charsnotin', 'skipto', 'regex')
 
 
@@ -373,6 +375,100 @@ def is_comment(g: G) -> bool:
     return comment_forms(g) is not None
 
 
+def regex_skipper(pattern: str, flags: int = 0) -> Optional[Dict[str, bool]]:
+    """If every string the pattern matches consists of blanks, line breaks and comments only: what it can consume
+    {'blank', 'cr', 'nl', 'line-comment', 'block-comment', 'unbounded' (a repetition without upper bound), 'cr-in-loop' (inside that repetition a `\r` can be passed)};
+    None when the pattern can match anything else."""
+    sp, sc = _sre()
+    try:
+        tree = list(sp.parse(pattern, flags))
+    except Exception:
+        return None
+    info = {'blank': False, 'cr': False, 'nl': False, 'line-comment': False, 'block-comment': False, 'unbounded': False, 'cr-in-loop': False}
+
+    def ws_chars(item) -> Optional[Set[str]]:
+        op, av = item
+        if op is sc.LITERAL:
+            return {chr(av)} if chr(av) in ' \t\r\n\f\v' else None
+        if op is sc.IN:
+            out: Set[str] = set()
+            for o, v in av:
+                if o is sc.LITERAL and chr(v) in ' \t\r\n\f\v':
+                    out.add(chr(v))
+                elif o is sc.CATEGORY and v is sc.CATEGORY_SPACE:
+                    out |= set(' \t\r\n\f\v')
+                else:
+                    return None
+            return out
+        return None
+
+    def seq(items, in_loop: bool) -> bool:
+        i = 0
+        while i < len(items):
+            op, av = items[i]
+            w = ws_chars(items[i])
+            if w is not None:
+                info['blank'] |= bool(w & set(' \t'))
+                info['cr'] |= '\r' in w
+                info['nl'] |= '\n' in w
+                if in_loop and '\r' in w:
+                    info['cr-in-loop'] = True
+                i += 1
+                continue
+            if op is sc.LITERAL and chr(av) == '/' and i + 1 < len(items) and items[i + 1][0] is sc.LITERAL and chr(items[i + 1][1]) == '/':
+                # // up to the end of the line
+                j = i + 2
+                while j < len(items) and items[j][0] in (sc.MAX_REPEAT, sc.MIN_REPEAT) and len(items[j][1][2]) == 1 and \
+                        items[j][1][2][0][0] in (sc.NOT_LITERAL, sc.IN, sc.ANY):
+                    j += 1
+                info['line-comment'] = True
+                i = j
+                continue
+            if op is sc.LITERAL and chr(av) == '/' and i + 1 < len(items) and items[i + 1][0] is sc.LITERAL and chr(items[i + 1][1]) == '*':
+                # /* ... */ : everything up to the closing `*/`
+                j = i + 2
+                while j + 1 < len(items) and not (items[j][0] is sc.LITERAL and chr(items[j][1]) == '*' and items[j + 1][0] is sc.LITERAL and chr(items[j + 1][1]) == '/'):
+                    j += 1
+                if j + 1 >= len(items):
+                    return False
+                info['block-comment'] = True
+                i = j + 2
+                continue
+            if op in (sc.MAX_REPEAT, sc.MIN_REPEAT):
+                lo, hi, sub = av
+                unb = hi is sc.MAXREPEAT
+                if unb:
+                    info['unbounded'] = True
+                if not seq(list(sub), in_loop or unb):
+                    return False
+                i += 1
+                continue
+            if op is sc.SUBPATTERN:
+                if not seq(list(av[-1]), in_loop):
+                    return False
+                i += 1
+                continue
+            if op is sc.BRANCH:
+                for br in av[1]:
+                    if not seq(list(br), in_loop):
+                        return False
+                i += 1
+                continue
+            return False
+        return True
+    if not seq(tree, False):
+        return None
+    if not any(info[k] for k in ('blank', 'cr', 'nl', 'line-comment', 'block-comment')):
+        return None
+    return info
+
+
+def _regex_skipper_of(g: G) -> Optional[Dict[str, bool]]:
+    if g.kind != 'regex':
+        return None
+    return regex_skipper(g.a.get('pattern', ''), g.a.get('flags', 0) or 0)
+
+
 def is_blank_skipper(g: G, _st: Optional[Set[int]] = None) -> bool:
     """g can only match newlines, whitespace and comments (possibly none)."""
     _st = _st or set()
@@ -384,6 +480,8 @@ def is_blank_skipper(g: G, _st: Optional[Set[int]] = None) -> bool:
     if g.kind in ('lineend', 'white', 'stringend'):
         return True
     if is_comment(g):
+        return True
+    if _regex_skipper_of(g) is not None:
         return True
     if g.kind in ('suppress', 'repeat', 'group'):
         return bool(g.kids) and is_blank_skipper(g.kids[0], _st)
@@ -702,7 +800,7 @@ def preceders(g: G, pm: Dict[int, List[Tuple[G, int]]], _st: Optional[Set[int]] 
 
 
 def skipper_accepts_comments(g: G) -> bool:
-    return any(is_comment(n) for n in walk(g))
+    return any(is_comment(n) or ((_regex_skipper_of(n) or {}).get('line-comment') or (_regex_skipper_of(n) or {}).get('block-comment')) for n in walk(g))
 
 
 def swallows_comment_lines(g: G) -> bool:
@@ -710,6 +808,9 @@ def swallows_comment_lines(g: G) -> bool:
     consume a whole block of comment lines (a skipper that needs a line end after its comments, or an
     optional single trailing comment, cannot)."""
     for n in walk(g):
+        rs = _regex_skipper_of(n)
+        if rs is not None and rs['unbounded'] and rs['nl'] and (rs['line-comment'] or rs['block-comment']):
+            return True
         if n.kind == 'repeat' and n.a.get('max') is None and n.kids:
             body = n.kids[0]
             alts = flatten_alt(body, ('first', 'or')) if body.kind in ('first', 'or') else [body]
